@@ -135,7 +135,7 @@ def cases(tier):
         if k not in seen:
             seen.add(k)
             uniq.append(c)
-    for kind in ("integrate", "approximate", "markov", "factory"):
+    for kind in ("integrate", "integrate-const-integrand", "approximate", "markov", "factory"):
         for assign in itertools.product(NAMES, repeat=3):
             uniq.append(["X", kind, list(assign)])
     return uniq
@@ -257,6 +257,14 @@ def _x_build(kind, names, seed):
         dims_f = tuple(dict.fromkeys((p, v)))
         m = A(dims_m, 91).log()
         f = A(dims_f, 92)
+        with funsor.interpretations.lazy:
+            t = Integrate(m, f, frozenset({Variable(p, Bint[SZ])}))
+        return t
+    if kind == "integrate-const-integrand":  # only the measure mentions the integration variable
+        dims_m = tuple(dict.fromkeys((p, u)))
+        dims_f = tuple(n for n in dict.fromkeys((v,)) if n != p) or ("zz2",)
+        m = A(dims_m, 97).log()
+        f = A(dims_f, 98)
         with funsor.interpretations.lazy:
             t = Integrate(m, f, frozenset({Variable(p, Bint[SZ])}))
         return t
